@@ -11,7 +11,7 @@ CLAIM = {
          "ideal learning bridge of the statement (unknown/broadcast/multicast -> all other ports; known -> only where the address was seen, the most "
          "recent port unless an older cached flow for that traffic is still installed; never the ingress port, never twice; filtered frames nowhere) "
          "and that no switch buffer is left occupied."
-         " Also: several packet-ins outstanding at once (O2_outstanding), a line of 2-3 switches under one controller with per-hop and end-to-end oracles (O3_network), and a burst of 16-30 long frames whose packet-ins arrive in recv()-sized pieces (O4_burst).",
+         " Also: several packet-ins outstanding at once (O2_outstanding), a line of 2-3 switches under one controller with per-hop and end-to-end oracles (O3_network), and a burst of 16-30 long frames whose packet-ins arrive in recv()-sized pieces (O4_burst). O5_ip_traffic: UDP / TCP / fragmented IP traffic between two learned hosts with and without switch buffering.",
  'note': "Trusted: CPython, z3, symx proxies/shims (SymDict for the MAC table), scripted byte pipes, virtual clock, the oracle in props/C11.py. 'An older cached "
          "flow is still installed' is read from the switch's flow table (its timeout semantics are C04's subject). Bounded: 1 switch (O1, O2) or a line of 2-3 switches (O3), 2-3 symbolic frames, buffering on/off.",
 }
